@@ -1,11 +1,13 @@
 """C23 -- Distributed summation is partition-independent and cannot deadlock.
 
-Tie: hand model coq/C23/Model.v + correspondence.  The real `allreduce_sum` is run on threads with
+Tie: translator (tr/c23_allreduce.py: loop nest of allreduce_sum -> coq/C23/Gen_Allreduce.v, proved in
+ProofsGen.v to be the projection of the model's event list) + hand model coq/C23/Model.v + correspondence.  The real `allreduce_sum` is run on threads with
 the recording rendezvous communicator on generated partitions; per-rank communication sequences and
 the resulting expression tree are compared with the model inside coqc (vm_compute).
 Direct oracle: every rank's result equals the single-process result (tree / bits), no rank blocks."""
 import itertools
 import json
+import os
 
 import numpy as np
 
@@ -150,7 +152,8 @@ class C23(C.Check):
     coq_dir = "C23"
     trusted_base = [
         "Coq 8.16.1 kernel (coqc, vm_compute for the correspondence evaluation); no axioms: all C23 theorems are closed under the global context",
-        "hand-written model coq/C23/Model.v of allreduce_sum/_send/_recv/_bcast (tied by correspondence, not by translation)",
+        "tr/c23_allreduce.py: fail-closed Python-ast translator of the loop nest and the return statements of allreduce_sum into coq/C23/Gen_Allreduce.v (regenerated on every run; C23_source_rank_program / C23_source_sequential / C23_source_bcast_root are re-proved against it); the set-up lines (allgather, cumsum, who, dtype) are an idiom compared textually",
+        "hand-written model coq/C23/Model.v of the global event list, of who (prefix sums) and of the message counts of _send/_recv/_bcast per payload type (tied by correspondence)",
         "harness/fakecomm.py: thread-based fake communicator with rendezvous sends (real MPI is not loadable here)",
         "merged-array abstraction: cell i of the distributed state lives on rank who[i] only (checked by comparing per-rank message sequences and results)",
     ]
@@ -162,6 +165,12 @@ class C23(C.Check):
 
     def __init__(self):
         self.obs = []
+
+    def translate(self, ctx):
+        from tr import c23_allreduce
+        text, sha = c23_allreduce.translate(ctx.repo)
+        C.write_if_changed(os.path.join(C.COQ, "C23", "Gen_Allreduce.v"), text)
+        self.sha = sha
 
     def correspondence(self, ctx, res):
         cases = [(tuple(c["part"]), c["vtype"]) for c in ctx.corpus()] + gen_cases(ctx)
